@@ -1,0 +1,18 @@
+//go:build verif
+
+// Contracts for the persisted atomic counter (read as text by /verif's govc; comment-only).
+
+package kv
+
+//@ # ghost: the in-memory value of a counter
+//@ ghost SpecCounterVal map[*AtomicInt64Counter]int64
+
+//@ trusted func (c *AtomicInt64Counter) Value() (v int64)
+//@   ensures v == SpecCounterVal[c]
+//@   modifies nothing
+//@ # Add advances the in-memory value first (even if the write that persists it fails)
+//@ trusted func (c *AtomicInt64Counter) Add(ctx context.Context, delta int64) (n int64, err error)
+//@   requires -9223372036854775808 <= SpecCounterVal[c] + delta && SpecCounterVal[c] + delta <= 9223372036854775807
+//@   ensures  SpecCounterVal[c] == old(SpecCounterVal[c]) + delta && n == SpecCounterVal[c]
+//@   ensures  forall x *AtomicInt64Counter :: x != c ==> SpecCounterVal[x] == old(SpecCounterVal[x])
+//@   modifies SpecCounterVal
